@@ -186,6 +186,11 @@ def main(argv):
       # report it as a violation (the harness never relies on carbon raising).  Anything else is ours.
       tb = traceback.extract_tb(e.__traceback__)
       repo_lib = os.path.join(os.environ.get('VERIF_REPO', '/repo'), 'lib', 'carbon') + os.sep
+      # (a RecursionError surfaces wherever the stack happens to run out: it is carbon's when carbon's frames fill the stack)
+      deep = isinstance(e, RecursionError) and sum(1 for f in tb[-60:] if f.filename.startswith(repo_lib)) >= 40
+      if deep:
+        last = [f for f in tb if f.filename.startswith(repo_lib)][-1]
+        tb = list(tb[:tb.index(last) + 1])
       if tb and os.path.realpath(tb[-1].filename).startswith(os.path.realpath(repo_lib) + os.sep) or \
          (tb and tb[-1].filename.startswith(repo_lib)):
         where = '%s:%d in %s' % (os.path.relpath(tb[-1].filename, os.path.dirname(os.path.dirname(repo_lib.rstrip(os.sep)))), tb[-1].lineno, tb[-1].name)
